@@ -51,6 +51,7 @@ NONCOLL = [
     ('Iterator[int]', 'PyIterator'), ('Iterator[int]', 'generator'), ('Generator[int, None, None]', 'generator'),
     ('Container[int]', 'PyContainer'), ('Reversible[int]', 'PyReversible'),
     ('Generator[int, None, None]', 'PyGenerator'),
+    ('Iterable[int]', 'PySizedIterator'), ('Iterator[int]', 'PySizedIterator'), ('Iterable[int]', 'PySizedIterable'),
 ]
 
 
@@ -152,7 +153,7 @@ def main():
                             x = {'root': o, 'optional': o, 'tuple-ok': (o, 1), 'tuple-bad': (o, 'bad')}[ctx]
                             spies.reset()
                             out = subj.run(ep, x, 7)
-                            evs = [e for e in spies.LOG if e[0] == 'NC' and e[1] != 'repr']
+                            evs = [e for e in spies.LOG if e[0] == 'NC' and e[1] not in ('repr', 'len')]
                             W.evaluate(('nc', src, fac, ctx, ep, n))
                             W.count('noncollection_checks')
                             if out.verdict == 'error':
@@ -177,7 +178,12 @@ def main():
         factories = [rng.choice(LEVELS[n][2]) for n in names]
         scaled = rng.randrange(len(names))
         kinds = [LEVELS[n][1] for n in names]
-        variant = rng.choice(('ok', 'allbad', 'onebad'))
+        variant = rng.choice(('ok', 'allbad', 'onebad', 'sibling-bad'))
+        if variant == 'sibling-bad' and wrap != 'tuple':
+            # a conforming container next to the real culprit: tuple[<shape>, int] with (container, 'bad')
+            wrap = 'tuple'
+            src = shape_src(names, leaf, wrap)
+            hint = eval(src, env)
         if variant == 'onebad' and not (scaled == 0 and kinds[0] in ('seq',) or kinds[0] == 'quasi' and scaled == 0):
             variant = 'allbad'
         if variant == 'onebad' and factories[0] not in ('SpyList', 'SpyTuple', 'PySequence'):
@@ -205,7 +211,7 @@ def main():
                 if variant == 'onebad':
                     bi = (r % n) if cs.is_random else 0
                 obj = build(names, leaf, factories, sizes, variant == 'allbad', 0, bi)
-                x = (obj, 1) if wrap == 'tuple' else obj
+                x = (obj, 'bad' if variant == 'sibling-bad' else 1) if wrap == 'tuple' else obj
                 spies.reset()
                 out = subj.run(ep, x, r)
                 vec = spies.vector()
